@@ -180,6 +180,11 @@ partial def parseStmt? (x : Sx) : Option Ir.Stmt :=
   | "dowhile", [b, c] => do
     let b ← parseBlock? b; let c ← parseExpr? c
     pure (.doWhile b c)
+  | "switch", [t, c, b] => do
+    let t ← tyOf? t.atom; let c ← parseExpr? c; let b ← parseBlock? b
+    pure (.switch t c b)
+  | "case", [c] => (parseConst? c).map .caseLabel
+  | "default", [] => some .defaultLabel
   | "break", [] => some .break
   | "continue", [] => some .continue
   | "ret", [] => some (.ret none)
@@ -263,6 +268,10 @@ def showStmt : HlslAst.Stmt → String
   | .continue => "(continue)"
   | .ret none => "(ret)"
   | .ret (some e) => "(ret " ++ showExpr e ++ ")"
+  | .empty => "(empty)"
+  | .switch c b => "(switch " ++ showExpr c ++ " " ++ showStmt b ++ ")"
+  | .caseLabel e s => "(case " ++ showExpr e ++ " " ++ showStmt s ++ ")"
+  | .defaultLabel s => "(default " ++ showStmt s ++ ")"
 def showStmts : HlslAst.Stmts → String
   | .nil => ""
   | .cons s r => " " ++ showStmt s ++ showStmts r
@@ -377,6 +386,7 @@ partial def stmtVars : Ir.Stmt → List Nat
   | .while c b => exprVars c ++ stmtsVars b
   | .doWhile b c => stmtsVars b ++ exprVars c
   | .ret e => optVars e
+  | .switch _ c b => exprVars c ++ stmtsVars b
   | _ => []
 partial def stmtsVars : Ir.Stmts → List Nat
   | .nil => []
